@@ -598,6 +598,81 @@ def enumerate_cpython(R, limit=600):
     return results
 
 
+def binding_positions(source):
+    """[(line, col, name, kind)] of every binding occurrence, from the rendered text"""
+    import ast
+    import re
+    lines = source.split('\n')
+    out = []
+    for n in ast.walk(ast.parse(source)):
+        if isinstance(n, ast.Name) and isinstance(n.ctx, ast.Store):
+            out.append((n.lineno, n.col_offset, n.id, 'name'))
+        elif isinstance(n, ast.arg):
+            out.append((n.lineno, n.col_offset, n.arg, 'param'))
+        elif isinstance(n, (ast.FunctionDef, ast.AsyncFunctionDef, ast.ClassDef)):
+            m = re.search(r'\b(?:def|class)\s+(%s)\b' % re.escape(n.name), lines[n.lineno - 1])
+            out.append((n.lineno, m.start(1), n.name, 'def'))
+    return out
+
+
+def site_positions(body, source):
+    """site -> (line, col): the generator's binding sites located in the text (one statement per line, so (line, name, kind)
+    identifies an occurrence)"""
+    occ = {}
+    for ln, col, nm, kind in binding_positions(source):
+        occ.setdefault((ln, nm, kind), []).append(col)
+    pos = {}
+    line = [0]
+
+    def take(ln, nm, kind, site):
+        c = occ.get((ln, nm, kind))
+        assert c and len(c) == 1, (ln, nm, kind, c)
+        pos[site] = (ln, c[0])
+
+    def blk(b):
+        if not b:
+            line[0] += 1
+        for s in b:
+            st(s)
+
+    def st(s):
+        k = s['k']
+        line[0] += 1
+        ln = line[0]
+        if k in ('assign',):
+            take(ln, s['name'], 'name', s['site'])
+        elif k in ('read', 'call', 'return'):
+            pass
+        elif k == 'if':
+            blk(s['body'])
+            if s['orelse']:
+                line[0] += 1
+                blk(s['orelse'])
+        elif k == 'for':
+            take(ln, s['name'], 'name', s['site'])
+            blk(s['body'])
+        elif k == 'def':
+            line[0] += len(s['decos'])
+            ln = line[0]
+            take(ln, s['name'], 'def', s['site'])
+            for p in s['params']:
+                take(ln, p[1], 'param', p[2])
+            line[0] += len(s['gl']) + len(s['nl'])
+            blk(s['body'])
+        elif k == 'lambda':
+            take(ln, s['name'], 'name', s['site'])
+            for p in s['params']:
+                take(ln, p[1], 'param', p[2])
+        elif k == 'class':
+            line[0] += len(s['decos'])
+            take(line[0], s['name'], 'def', s['site'])
+            blk(s['body'])
+        elif k == 'comp':
+            take(ln, s['name'], 'name', s['site'])
+    blk(body)
+    return pos
+
+
 def generate(rng, max_depth=3):
     """one valid program: (body, Rendered, nodes, scopes) or None"""
     g = MGen(rng, max_depth=max_depth, names=rng.choice([NAMES, NAMES, ['a', 'b'], ['a', 'b', 'c']]))
@@ -609,4 +684,5 @@ def generate(rng, max_depth=3):
     except SyntaxError:
         return None
     nodes, scopes = reduce_program(body)
+    R.site_pos = site_positions(body, R.source)
     return body, R, nodes, scopes
